@@ -51,6 +51,10 @@ def make_spec(case):
                           "form": "Bounds", "patterns": pats}
         spec["options"]["scale"] = bool(rng.random() < 0.6)
         gen.clamp_npt(spec)
+        if rng.random() < 0.4:
+            # undefined / infinite constraint (or objective) values at some
+            # evaluations while the internal variables differ from the user's
+            spec["faults"] = gen.fault_plan(rng, spec, density=2)
     else:
         spec = gen.general(rng, n=n, con=str(rng.choice(["nl", "both"])),
                            forms=forms, fun_none=1.0, maxfev=(20, 100))
